@@ -221,6 +221,9 @@ def run(prop, tier, seed, replay=None):
                 c.known_seen.append(hit)
             else:
                 c.violation(r, v[key], extra={'verdict': v, 'plain': chars.dec(r['plain']), 'text': chars.dec(r['src'])})
+    if prop == 'C18' and not replay:
+        from checks import include18
+        include18.phase(c, tier)
     if prop == 'C10' and not replay:
         from checks import multilang
         multilang.rotation_phase(c, tier)
